@@ -3,7 +3,7 @@ CONSTANTS
   Deviations = {}
   Pids = {1, 2}
   MaxN = 2
-  MaxBufs = 2
+  MaxOps = 4
   PickAny = FALSE
   CpuPages = 2
   GpuPages = 3
